@@ -62,6 +62,12 @@ def generate(seed, tier, index):
                                p_foreign_thread=0.0 if calibrating else 0.05)
     if rng.random() < 0.3:
         intents.insert(0, ['destroy', rng.randrange(nslots), 1])     # destroy before anything was seen
+    if not calibrating and rng.random() < 0.25:
+        # the user interrupts the program now and then, types a state-neutral wl command and resumes with gdb's own `continue`:
+        # connection tracking must not notice
+        for _ in range(rng.randint(1, 3)):
+            intents.insert(rng.randint(0, len(intents)), ['cmd', rng.choice(['wlconnection', 'wl connection', 'wlhelp', 'wl list ~ 1', 'wl matcher x']),
+                                                           {'t': 'other'}])
     cfg = {'nslots': nslots, 'sides': [rng.choice(['client', 'server']) for _ in range(nslots)], 'synth': True,
            'suppress': rng.random() < 0.5}
     if rng.random() < 0.12 and not (tier == 'thorough' and index < 16):
